@@ -38,7 +38,7 @@ pub fn try_mount(img: &Image, strict: bool, want_total: bool) -> MountOutcome {
         };
         let cs = fs.cluster_size();
         let total = if want_total { fs.stats().ok().map(|s| s.total_clusters()) } else { None };
-        std::mem::forget(fs);
+        drop(fs);
         Ok((ft, cs, total))
     }));
     match r {
